@@ -62,6 +62,8 @@ pub struct Base {
     pub other: Vec<u8>,
     /// big bases are not swept exhaustively: these (file, start, end) ranges are, the rest is sampled
     pub targeted: Vec<(usize, u64, u64)>,
+    /// number of concurrent reader threads the child adds after its dump (C06)
+    pub concurrent: u8,
 }
 
 #[derive(Clone, Debug)]
@@ -304,6 +306,27 @@ impl Drop for Child {
 pub fn base_spec(shape: usize, packaging: Packaging, comp: Comp, seed: u32) -> ContainerSpec {
     let c = |len: u32, ent: Entropy, hint: Hint, k: u32| ContentSpec { len, ent, seed: seed.wrapping_mul(31).wrapping_add(k), hint, source: Source::Mem, dup_of: None, flip: None };
     let rv = |x: u64, base: u8, cut: u32| RawVal { x, arr: ArrSpec { base, cut, tweak: 0 } };
+    if shape == 3 {
+        // one large compressed cluster (hundreds of KiB decoded, many decode chunks, several
+        // compressor blocks) with blobs spread over it, plus two raw contents
+        let mut contents = vec![];
+        for i in 0..40u32 {
+            contents.push(c(8192 + 13 * i, if i % 4 == 3 { Entropy::Low } else { Entropy::Text }, Hint::Yes, 300 + i));
+        }
+        contents.push(c(100, Entropy::High, Hint::No, 7));
+        contents.push(c(0, Entropy::Zero, Hint::No, 8));
+        let mut spec = base_spec(1, packaging, comp, seed);
+        spec.contents = contents;
+        spec.extra_packs.clear();
+        return spec;
+    }
+    if shape == 4 {
+        // content-info table above 64 KiB
+        let mut spec = base_spec(1, packaging, comp, seed);
+        spec.contents = (0..20000u32).map(|i| c(1 + i % 3, Entropy::Text, Hint::No, 9000 + i)).collect();
+        spec.extra_packs.clear();
+        return spec;
+    }
     if shape == 2 {
         // "big tables": more than 1023 contents and clusters of more than 2046 blobs, so that the
         // content-info table and the cluster tails exceed 4 KiB (the mmap path of the file source)
@@ -396,7 +419,91 @@ pub fn make_base(name: &str, spec: &ContainerSpec, scratch: &Path, other: Vec<u8
         pristine: BTreeMap::new(),
         other,
         targeted: vec![],
+        concurrent: 0,
     })
+}
+
+/// A container assembled with the low-level creators: manifest, directory pack and TWO content
+/// packs in one file, all recorded with the empty location (BasicCreator never produces this
+/// shape; `jbk concat`-like tools and custom creators do).
+pub fn make_multi_pack_base(name: &str, comp: Comp, seed: u32, scratch: &Path, other: Vec<u8>) -> Result<Base, Failure> {
+    use jubako as jbk;
+    let dir = scratch.join(format!("base-{name}"));
+    let _ = std::fs::remove_dir_all(&dir);
+    std::fs::create_dir_all(&dir).unwrap();
+    let path = jbk::Utf8PathBuf::from_path_buf(dir.join("a.jbk")).unwrap();
+    let io = |e: std::io::Error| Failure::new("create-error", format!("multi-pack base: {e}"));
+    let jb = |e: jbk::creator::Error| Failure::new("create-error", format!("multi-pack base: {e}"));
+    let mut container = jbk::creator::ContainerPackCreator::new(&path, Default::default()).map_err(io)?;
+    let mut addresses: Vec<(u16, u32)> = vec![];
+    let mut pack_datas = vec![];
+    for pack_id in 1u16..=2 {
+        let file = container.into_file().map_err(io)?;
+        let mut cp = jbk::creator::ContentPackCreator::new_from_output(file, jbk::PackId::from(pack_id), vendor(), Default::default(), comp.to_jbk()).map_err(io)?;
+        for i in 0..4u32 {
+            let b = content_bytes(seed ^ (pack_id as u32 * 100 + i), 30 + 170 * i as usize, if i % 2 == 0 { Entropy::Text } else { Entropy::High });
+            let a = cp.add_content(Box::new(std::io::Cursor::new(b)), if i % 2 == 0 { jbk::creator::CompHint::Yes } else { jbk::creator::CompHint::No }).map_err(io)?;
+            addresses.push((a.pack_id.into_u16(), a.content_id.into_u32()));
+        }
+        let (file, data) = cp.finalize().map_err(io)?;
+        container = file.close(data.uuid).map_err(io)?;
+        pack_datas.push(data);
+    }
+    let dspec = base_spec(1, Packaging::OneFile, comp, seed).dir;
+    let dmodel = build_model(&dspec, &addresses);
+    let mut dp = jbk::creator::DirectoryPackCreator::new(jbk::PackId::from(0), vendor(), Default::default());
+    build_dir(&dmodel).install(&mut dp);
+    let fin = dp.finalize().map_err(io)?;
+    let mut file = container.into_file().map_err(io)?;
+    let dir_data = fin.write(&mut file).map_err(jb)?;
+    container = file.close(dir_data.uuid).map_err(io)?;
+    let mut manifest = jbk::creator::ManifestPackCreator::new(vendor(), Default::default());
+    manifest.add_pack(dir_data, "");
+    for d in pack_datas {
+        manifest.add_pack(d, "");
+    }
+    let mut file = container.into_file().map_err(io)?;
+    let muuid = manifest.finalize(&mut file).map_err(jb)?;
+    container = file.close(muuid).map_err(io)?;
+    container.finalize().map_err(io)?;
+    let data = vec![std::fs::read(path.as_std_path()).unwrap()];
+    let maps = data.iter().map(|d| indep::decode_file(d).ok()).collect();
+    Ok(Base {
+        name: name.to_string(),
+        files: vec!["a.jbk".into()],
+        main: "a.jbk".into(),
+        index_names: index_names(&dmodel),
+        addresses,
+        data,
+        maps,
+        packaging: Packaging::OneFile,
+        comp,
+        pristine: BTreeMap::new(),
+        other,
+        targeted: vec![],
+        concurrent: 0,
+    })
+}
+
+/// A base with one large compressed cluster: sampled positions of the compressed payload are swept.
+pub fn make_large_cluster_base(name: &str, spec: &ContainerSpec, scratch: &Path, other: Vec<u8>) -> Result<Base, Failure> {
+    let mut b = make_base(name, spec, scratch, other)?;
+    let mut targeted = vec![];
+    for (fi, m) in b.maps.iter().enumerate() {
+        let Some(m) = m else { continue };
+        for r in m.regions.iter().filter(|r| r.kind == "content/compcluster") {
+            let n = (r.end - r.start).min(400);
+            for k in 0..n {
+                let pos = r.start + k * (r.end - r.start) / n;
+                targeted.push((fi, pos, pos + 1));
+            }
+        }
+        for r in m.regions.iter().filter(|r| r.kind == "content/clustertail" || r.kind == "content/contentinfos" || r.kind == "content/clusterptrs") {
+            targeted.push((fi, r.start, r.end));
+        }
+    }
+    b.targeted = targeted;
+    Ok(b)
 }
 
 /// For a "big tables" base: read only a sample of the contents, and sweep exactly the bytes that
@@ -462,7 +569,7 @@ impl Base {
         out
     }
     fn job(&self, dir: &Path, full: bool) -> Job {
-        Job { dir: dir.to_string_lossy().to_string(), main: self.main.clone(), files: self.files.clone(), index_names: self.index_names.clone(), addresses: self.addresses.clone(), full }
+        Job { dir: dir.to_string_lossy().to_string(), main: self.main.clone(), files: self.files.clone(), index_names: self.index_names.clone(), addresses: self.addresses.clone(), full, concurrent: self.concurrent }
     }
 }
 
@@ -709,6 +816,7 @@ pub fn base_from_replay(r: &FaultReplay) -> Base {
         pristine: BTreeMap::new(),
         other: unhex(&r.other_hex),
         targeted: vec![],
+        concurrent: if r.comp != Comp::None { 4 } else { 0 },
     }
 }
 
@@ -835,6 +943,10 @@ pub fn check_cmd(id: &str, tier: Tier) -> i32 {
     let mut big_specs: Vec<(String, ContainerSpec)> = vec![];
     big_specs.push(("T-OneFile-none".into(), base_spec(2, Packaging::OneFile, Comp::None, s32)));
     big_specs.push(("T-TwoFiles-zstd".into(), base_spec(2, Packaging::TwoFiles, Comp::Zstd(3), s32)));
+    big_specs.push(("T3-OneFile-none-20000".into(), base_spec(4, Packaging::OneFile, Comp::None, s32)));
+    big_specs.push(("L-OneFile-zstd".into(), base_spec(3, Packaging::OneFile, Comp::Zstd(3), s32)));
+    big_specs.push(("L-OneFile-lzma".into(), base_spec(3, Packaging::OneFile, Comp::Lzma(1), s32)));
+    big_specs.push(("L-TwoFiles-lz4".into(), base_spec(3, Packaging::TwoFiles, Comp::Lz4(1), s32)));
     if tier == Tier::Thorough {
         use proptest::strategy::{Strategy, ValueTree};
         let mut runner = proptest::test_runner::TestRunner::new_with_rng(
@@ -881,14 +993,37 @@ pub fn check_cmd(id: &str, tier: Tier) -> i32 {
             }
         }
     }
+    for (k, c) in [Comp::None, Comp::Zstd(3)].iter().enumerate() {
+        match make_multi_pack_base(&format!("M-OneFile-{}-2packs", c.name()), *c, s32 ^ k as u32, scratch.path(), other.clone()) {
+            Ok(b) => bases.push(b),
+            Err(f) => {
+                eprintln!("INCONCLUSIVE property={id}: cannot build the multi-pack base: {} {}", f.sig, f.msg);
+                return 2;
+            }
+        }
+    }
     let n_small = bases.len();
     for (name, spec) in &big_specs {
-        let made = if name.starts_with("T-") { make_big_tables_base(name, spec, scratch.path(), other.clone()) } else { make_base(name, spec, scratch.path(), other.clone()) };
+        let made = if name.starts_with('T') {
+            make_big_tables_base(name, spec, scratch.path(), other.clone())
+        } else if name.starts_with("L-") {
+            make_large_cluster_base(name, spec, scratch.path(), other.clone())
+        } else {
+            make_base(name, spec, scratch.path(), other.clone())
+        };
         match made {
             Ok(b) => bases.push(b),
             Err(f) => {
                 // generated specs may hit creation refusals; skip those
                 eprintln!("note: generated base {name} skipped: {} {}", f.sig, f.msg);
+            }
+        }
+    }
+    if id == "C06" {
+        // several readers waiting on one damaged cluster (compressed bases only)
+        for b in bases.iter_mut() {
+            if b.comp != Comp::None {
+                b.concurrent = 4;
             }
         }
     }
@@ -1094,9 +1229,14 @@ pub fn check_cmd(id: &str, tier: Tier) -> i32 {
     runner.run(&plain, &profiles, full, 16, |res| {
         let base = &runner.bases[res.case.base];
         let target = target_map.get(&(res.case.base, res.case.edits.clone())).cloned().flatten();
-        let mut t = tally.lock().unwrap();
+        // everything expensive (judging, re-applying the edits, classifying) happens outside the lock
+        let mut l_classes: Vec<String> = vec![];
+        let mut l_evals = 0u64;
+        let mut l_timeouts: Vec<String> = vec![];
+        let mut l_nontrivial: Vec<(u64, serde_json::Value)> = vec![];
+        let mut l_failures: Vec<(Failure, Profile)> = vec![];
         for (profile, o) in &res.outcomes {
-            t.evaluations += 1;
+            l_evals += 1;
             let first = &res.case.edits[0];
             let (efile, epos, ekind) = match first {
                 Edit::Xor { file, pos, .. } => (*file, *pos as u64, "xor"),
@@ -1109,15 +1249,15 @@ pub fn check_cmd(id: &str, tier: Tier) -> i32 {
             };
             let kind = if matches!(first, Edit::Append { .. } | Edit::Replace { .. }) { "whole-file".to_string() } else { base.kind_at(efile, epos) };
             let oc = o.class();
-            *t.classes.entry(format!("outcome:{oc}")).or_default() += 1;
-            *t.classes.entry(format!("edit:{ekind}")).or_default() += 1;
-            *t.classes.entry(format!("hit:{kind}")).or_default() += 1;
-            *t.classes.entry(format!("profile:{profile:?}")).or_default() += 1;
+            l_classes.push(format!("outcome:{oc}"));
+            l_classes.push(format!("edit:{ekind}"));
+            l_classes.push(format!("hit:{kind}"));
+            l_classes.push(format!("profile:{profile:?}"));
             if res.case.edits.len() > 1 {
-                *t.classes.entry("multi-edit".into()).or_default() += 1;
+                l_classes.push("multi-edit".to_string());
             }
             if let Outcome::Timeout = o {
-                t.timeouts.push(format!("{:?} on base {}", res.case.edits, base.name));
+                l_timeouts.push(format!("{:?} on base {}", res.case.edits, base.name));
             }
             let pristine = &base.pristine[profile];
             let (failure, nontrivial) = match id {
@@ -1143,7 +1283,7 @@ pub fn check_cmd(id: &str, tier: Tier) -> i32 {
                         }
                     }
                     if !required {
-                        *t.classes.entry("not-required:no-op-or-exempt-bytes-only".into()).or_default() += 1;
+                        l_classes.push("not-required:no-op-or-exempt-bytes-only".to_string());
                     }
                     // a re-checksummed header whose uuid changed IS another pack: when it lives in its own
                     // file the container rightly reports the listed pack as missing (C11) and its check
@@ -1156,7 +1296,7 @@ pub fn check_cmd(id: &str, tier: Tier) -> i32 {
                         _ => false,
                     };
                     if identity_changed_external {
-                        *t.classes.entry("identity-changed-external-pack".into()).or_default() += 1;
+                        l_classes.push("identity-changed-external-pack".to_string());
                     }
                     let f = match (o, &target) {
                         (Outcome::Value(d), Some((file, uuid))) if required => {
@@ -1175,7 +1315,7 @@ pub fn check_cmd(id: &str, tier: Tier) -> i32 {
                             Some(Acc::Ok(true)) => "check:true",
                             None => "check:open-error",
                         };
-                        *t.classes.entry(chk.into()).or_default() += 1;
+                        l_classes.push(chk.to_string());
                     }
                     (f, required && matches!(o, Outcome::Value(_)))
                 }
@@ -1190,21 +1330,33 @@ pub fn check_cmd(id: &str, tier: Tier) -> i32 {
                 _ => (judge_c06(o, *profile), differs_from_pristine(pristine, o)),
             };
             if nontrivial {
-                t.nontrivial_cases += 1;
                 let key = hash_str(&format!("{}|{kind}|{ekind}|{oc}|{profile:?}|{}", base.name, res.case.edits.len().min(3)));
-                if t.nontrivial.insert(key) && t.samples.len() < 5 {
-                    let s = serde_json::json!({"base": base.name, "edits": res.case.edits, "hit": kind, "profile": format!("{profile:?}"), "outcome": oc});
-                    t.samples.push(s);
-                }
+                let s = serde_json::json!({"base": base.name, "edits": res.case.edits, "hit": kind, "profile": format!("{profile:?}"), "outcome": oc});
+                l_nontrivial.push((key, s));
             }
             if let Some(f) = failure {
-                if known.contains(&f.sig) {
-                    *t.excluded.entry(f.sig.clone()).or_default() += 1;
-                } else {
-                    *t.classes.entry(format!("violation:{}", f.sig)).or_default() += 1;
-                    if !t.failures.contains_key(&f.sig) {
-                        t.failures.insert(f.sig.clone(), (f, res.case.clone(), *profile, target.clone()));
-                    }
+                l_failures.push((f, *profile));
+            }
+        }
+        let mut t = tally.lock().unwrap();
+        t.evaluations += l_evals;
+        for c in l_classes {
+            *t.classes.entry(c).or_default() += 1;
+        }
+        t.timeouts.extend(l_timeouts);
+        for (key, s) in l_nontrivial {
+            t.nontrivial_cases += 1;
+            if t.nontrivial.insert(key) && t.samples.len() < 5 {
+                t.samples.push(s);
+            }
+        }
+        for (f, profile) in l_failures {
+            if known.contains(&f.sig) {
+                *t.excluded.entry(f.sig.clone()).or_default() += 1;
+            } else {
+                *t.classes.entry(format!("violation:{}", f.sig)).or_default() += 1;
+                if !t.failures.contains_key(&f.sig) {
+                    t.failures.insert(f.sig.clone(), (f, res.case.clone(), profile, target.clone()));
                 }
             }
         }
